@@ -12,9 +12,11 @@ EXPLANATION = (
     "(R2) fill: the four kernels are executed over a table of (length, from, step) and must write out[i] = from + i*step for every i exactly once. "
     "(R3) routing: range() hands (start, [increment,] terminal) to the exclusive / inclusive (increment) compilers according to the operator token. "
     "Not decided: floating-point rounding of long progressions, descending ranges, ranges used as indices."
+    " (R4) operand forwarding: in every arm of every range compiler (the direct attempt and each fallback arm that dereferences variable operands) the i-th argument of the dispatcher call derives from the i-th operand and no other (start, [step,] end)."
 )
 TECHNIQUE = ("finite-table evaluation (a concrete mini-interpreter over the syntax tree of the expanded crate, fixed-width integer overflow modelled) of the closed length arithmetic in each "
-             "dispatcher arm and of the four fill kernels, compared with the progression the property states; routing table extracted from range()")
+             "dispatcher arm and of the four fill kernels, compared with the progression the property states; routing table extracted from range(); operand-position flow analysis of every range compiler's "
+             "dispatcher calls (direct attempt and each dereferencing fallback arm)")
 
 FORMS = {"impl_range_exclusive_fxn": ("excl", False), "impl_range_inclusive_fxn": ("incl", False),
          "impl_range_increment_exclusive_fxn": ("excl", True), "impl_range_increment_inclusive_fxn": ("incl", True)}
@@ -60,6 +62,12 @@ def table(kind, tier):
 
 
 def run(F, rep, tier):
+    _run(F, rep, tier)
+    from rules.c15_forward import run_r4
+    run_r4(F, rep)
+
+
+def _run(F, rep, tier):
     crate = "mech_range.lib"
     rep.rule("C15-R1", "element count: the length arithmetic of every range dispatcher arm equals the number of terms of the progression, over a finite table of operands per kind "
                        "(fixed-width integer semantics; error / empty accepted where no term exists; descending ranges not decided)")
